@@ -41,6 +41,7 @@ func runC01(w *World, c *Check) {
 	c.Rule("C01.service", "every path of service.VerifyAPREQ to `true, creds, nil` passes Verify (with the Settings' values), the required-address test, the replay test (after authentication) and the PAC test", 8)
 	c.Rule("C01.identity", "the identity and expiry given to the application derive from the ticket's decrypted part, or from authenticator fields compared equal to it by the check-list", 3)
 	c.Rule("C01.keysel", "the ticket key is looked up with (sname|override, ticket realm, kvno, etype) in parameter order and the ticket is decrypted with key usage 2", 4)
+	c.Rule("C01.faithful", "APReq.Verify, Ticket.Valid and VerifyAPREQ never return (false, nil): every rejection names its KRB error", 12)
 	c.Rule("C01.authusage", "authenticator key usage is 7 for krbtgt and 11 otherwise, used by both the encrypting and the decrypting side", 4)
 
 	// ---- rule 1: APReq.Verify -------------------------------------------------
@@ -221,6 +222,7 @@ func runC01(w *World, c *Check) {
 	keytabFilterRule(w, c, "C01.keytab")
 	// the comparison helpers the check-lists rely on
 	ruleEqualityHelpers(w, c, "C01.equal")
+	ruleFalseHasError(w, c, "C01.faithful", "messages.(*APReq).Verify", "messages.(*Ticket).Valid", "service.VerifyAPREQ")
 }
 
 // noteStrictness prints which time comparisons are strict (the property does
